@@ -47,6 +47,15 @@ func famConc(w *bufio.Writer, seed uint64, n int) error {
 			MaxPreMergerBatches:    1 + r.intn(2),
 			MergerIdleRunTimeoutMS: -1,
 		}
+		// with DeferredSort, half of the cases pad every batch with filler keys in random order, so
+		// that sorting a batch takes milliseconds and readers, merger and writers meet a segment
+		// whose sort is in progress (the sort-ticket protocol of segment.RequestSort)
+		filler := 0
+		if co.DeferredSort && r.chance(1, 2) {
+			filler = 3000 + r.intn(9000)
+			perWriter = 4 + r.intn(4)
+		}
+		fillSeed := r.next()
 		var stalls int32 = int32(r.intn(3))
 		co.OnEvent = func(e moss.Event) {
 			if atomic.LoadInt32(&stalls) > 0 && (e.Kind == moss.EventKindMergerProgress || e.Kind == moss.EventKindPersisterProgress) {
@@ -74,6 +83,7 @@ func famConc(w *bufio.Writer, seed uint64, n int) error {
 		var batches []batchEv
 		var snaps []snapEv
 		var problems []string
+		var behind []string
 		var wg sync.WaitGroup
 		var writersLeft int32 = int32(nw)
 		for wi := 0; wi < nw; wi++ {
@@ -92,6 +102,12 @@ func famConc(w *bufio.Writer, seed uint64, n int) error {
 						b.Set([]byte(fmt.Sprintf("w%d/p%d", wi, p)), val)
 					}
 					b.Set([]byte(fmt.Sprintf("w%d/u%04d", wi, seq)), []byte("1"))
+					if filler > 0 {
+						fr := newRng(fillSeed + uint64(wi*1000+seq))
+						for f := 0; f < filler; f++ {
+							b.Set([]byte(fmt.Sprintf("w%d/%c%06x%04x", wi, "anz"[f%3], fr.next()&0xffffff, f)), val)
+						}
+					}
 					if children {
 						cb, _ := b.NewChildCollectionBatch(fmt.Sprintf("c%d", wi), moss.BatchOptions{})
 						cb.Set([]byte("ck"), val)
@@ -177,6 +193,24 @@ func famConc(w *bufio.Writer, seed uint64, n int) error {
 						ev.uniques = append(ev.uniques, us)
 					}
 					ss.Close()
+					// C10 under concurrency: a fresh snapshot is never behind what Collection.Get just returned
+					for wi := 0; wi < nw; wi++ {
+						k := []byte(fmt.Sprintf("w%d/m", wi))
+						gv, _ := c.Get(k, moss.ReadOptions{})
+						s2, err := c.Snapshot()
+						if err != nil {
+							break
+						}
+						sv, _ := s2.Get(k, moss.ReadOptions{})
+						s2.Close()
+						gi, _ := strconv.Atoi(string(gv))
+						si, _ := strconv.Atoi(string(sv))
+						if si < gi {
+							mu.Lock()
+							behind = append(behind, fmt.Sprintf("Collection.Get(%s)=%d, then a fresh Snapshot.Get=%d", k, gi, si))
+							mu.Unlock()
+						}
+					}
 					mu.Lock()
 					snaps = append(snaps, ev)
 					mu.Unlock()
@@ -217,9 +251,9 @@ func famConc(w *bufio.Writer, seed uint64, n int) error {
 			}
 			sn = append(sn, L(e.start, e.end, views))
 		}
-		emit(L("case", i, int64(cs), L("cfg", L("writers", nw), L("readers", nr), L("store", useStore), L("children", children),
+		emit(L("case", i, int64(cs), L("cfg", L("writers", nw), L("readers", nr), L("store", useStore), L("children", children), L("filler", filler),
 			L("procs", runtime.GOMAXPROCS(0))), L("universe", L())))
-		emit(L("conc", bs, sn, L("hung", hung), L("problems", fmt.Sprintf("%q", fmt.Sprint(problems))), L("expected", nw*perWriter)))
+		emit(L("conc", bs, sn, L("hung", hung), L("behind", len(behind), fmt.Sprintf("%q", fmt.Sprint(behind))), L("problems", fmt.Sprintf("%q", fmt.Sprint(problems))), L("expected", nw*perWriter)))
 		emit(L("end"))
 	}
 	return nil
